@@ -68,6 +68,16 @@ var c06SrvCache *security.SessionCache
 func c06ServerCfg(cipher security.CryptoMethod, enc security.SecurityLevel) *security.SecurityConfig {
 	c := baseCfg(security.SecurityRequired, enc, []security.AuthMethod{mCTB}, []security.CryptoMethod{cipher}, true)
 	c.SessionCache = c06SrvCache
+	if c06SrvCache != nil {
+		// in this layout the server also maps the authenticated identity to another
+		// fully-qualified user; the mapped identity is what the handshake establishes
+		c.PostAuthPolicy = func(u, peer string, authed, enc bool) (string, []int) {
+			if authed {
+				return "mapped-" + u + "@pool.example", []int{5}
+			}
+			return "", []int{5}
+		}
+	}
 	c.SessionDuration, c.SessionLease = c06Duration, c06Lease
 	return c
 }
@@ -611,7 +621,7 @@ func c06BFS(depth int, res *vlib.Result, ownCache bool) {
 func C06Plan() *vlib.Plan {
 	p := &vlib.Plan{
 		Property: "C06", Level: "model_checking", Workers: 1,
-		Rule:   "E-BFS on the real server resumption path. Events: establish a keyed session (real handshake), establish a key-less session (no common cipher), scripted resumption with the right id+key from another address, legitimate client resumption, advance virtual time by lease/2, lease+60, duration+60, invalidate K / L, sweep expired. A state is the event history replayed on a cleared cache; canonical key = (status and remaining-lifetime bucket of K and L, client still holds K, replay recorded). In EVERY state a battery of scripted requests is fired: {K, L, unknown id} x {wrong key, no key} x {reply requested, not} x {same, different source address}, every single-character alteration of a live id (once), and byte-for-byte replays (whole and truncated at every frame boundary) of a recorded legitimate resumed connection. The whole search runs twice: servers on the package-global cache, and servers configured with a SessionCache of their own (sessions are invalidated through the package API, swept in both). Oracle = reference map id -> {key?, expiry, invalidated}. traces = states replayed; transitions = events + probes executed.",
+		Rule:   "E-BFS on the real server resumption path. Events: establish a keyed session (real handshake), establish a key-less session (no common cipher), scripted resumption with the right id+key from another address, legitimate client resumption, advance virtual time by lease/2, lease+60, duration+60, invalidate K / L, sweep expired. A state is the event history replayed on a cleared cache; canonical key = (status and remaining-lifetime bucket of K and L, client still holds K, replay recorded). In EVERY state a battery of scripted requests is fired: {K, L, unknown id} x {wrong key, no key} x {reply requested, not} x {same, different source address}, every single-character alteration of a live id (once), and byte-for-byte replays (whole and truncated at every frame boundary) of a recorded legitimate resumed connection. The whole search runs twice: servers on the package-global cache, and servers configured with a SessionCache of their own and an identity-mapping PostAuthPolicy (sessions are invalidated through the package API, swept in both). Oracle = reference map id -> {key?, expiry, invalidated}. traces = states replayed; transitions = events + probes executed.",
 		Assume: []string{"virtual time = re-storing every cache entry with its expiration moved back (public API), margins of 60 s against real time", "single process, sequential (the server-side cache is process-global)"},
 	}
 	p.Gen = func(tier string, yield func(vlib.Case)) {
